@@ -281,6 +281,14 @@ class Analyzer:
         if d[0] not in ("C", "M") or depth > 6:
             return out
         pl = d[1]
+        if len(pl) == 2 and isinstance(pl[1], list) and pl[1][0] == ".":
+            # a component of a tuple built in this body: `match (a.is_some(), b.is_empty()) { (true, false) => ..` tests the components' own conditions
+            tdefs = self.B.defs.get(pl[0], [])
+            if len(tdefs) == 1 and tdefs[0][2] == "assign" and tdefs[0][3][2][0] == "Agg" and tdefs[0][3][2][1] == "tuple":
+                ops = tdefs[0][3][2][2]
+                if pl[1][1] < len(ops):
+                    return self.cond_facts(ops[pl[1][1]], how, depth + 1)
+            return out
         if len(pl) != 1:
             return out
         l = pl[0]
